@@ -334,17 +334,19 @@ func (rs *rowStore) processInserts(offsetsBySource common.OffsetsBySource, stop 
 func (rs *rowStore) iterate(ctx context.Context, outFields core.Fields, includeMemStore bool, onValue func(bytemap.ByteMap, []encoding.Sequence) (more bool, err error)) (common.OffsetsBySource, error) {
 	guard := core.Guard(ctx)
 
-	rs.mx.RLock()
+	// Note - the iteration is registered in the same critical section in which
+	// the file store is picked. Otherwise the file could get flushed over and
+	// removed before we've registered our interest in it, and the iteration
+	// would find no file at all.
+	rs.mx.Lock()
 	fs := rs.fileStore
 	var ms *memstore
 	if includeMemStore {
 		ms = rs.memStore.copy()
 	}
-	rs.mx.RUnlock()
-	simhook.Point("scan.snapshotTaken", rs.t.db, rs.t.Name)
-	rs.mx.Lock()
 	rs.iterationsInProgress[fs.filename]++
 	rs.mx.Unlock()
+	simhook.Point("scan.snapshotTaken", rs.t.db, rs.t.Name)
 	defer func() {
 		rs.mx.Lock()
 		rs.iterationsInProgress[fs.filename]--
@@ -749,12 +751,14 @@ func (rs *rowStore) removeOldFiles(stop <-chan interface{}) {
 					continue
 				}
 				rs.t.db.waitForBackupToFinish(stop)
+				// iterations are registered under the file store's filename, which
+				// includes the directory
+				name := filepath.Join(rs.opts.dir, filename)
 				rs.mx.RLock()
-				okayToRemove := rs.iterationsInProgress[filename] == 0 // don't remove file if we're iterating on it
+				okayToRemove := rs.iterationsInProgress[name] == 0 // don't remove file if we're iterating on it
 				rs.mx.RUnlock()
 				if okayToRemove {
 					// Okay to delete now
-					name := filepath.Join(rs.opts.dir, filename)
 					rs.t.log.Debugf("Removing old file %v", name)
 					simhook.Point("gc.beforeRemove", rs.t.db, rs.t.Name)
 					err := os.Remove(name)
